@@ -595,6 +595,25 @@ func (m *engineMon) afterOp(opLine string, pre *pokerface.GameState, err error) 
 			m.V("C12", "raise_below_refused", opLine+" was accepted")
 		}
 	}
+	// the other half of "is carried out exactly": such a request must not be REFUSED either.  By C12.raise_exact_unconditional and
+	// raise_offered_iff the only legitimate refusals of a request cw < x < stack at round start, x - cw >= previous size, from the
+	// player to act are: nobody has wagered (a bet situation), or the player is level with the wager and holds less than the minimum bet.
+	if pre != nil && err != nil && op.kind == "act" && op.act == "raise" && pre.Status.CurrentEvent == "RoundStarted" && c.limit != "pot" {
+		ps := &pre.Status
+		actor := op.seat
+		if actor < 0 {
+			actor = ps.CurrentPlayer
+		}
+		if actor == ps.CurrentPlayer && actor >= 0 && actor < len(pre.Players) {
+			pp := pre.Players[actor]
+			if !pp.Fold && pp.StackSize != 0 && op.x > ps.CurrentWager && op.x < pp.InitialStackSize && op.x-ps.CurrentWager >= m.lastRaise &&
+				(pp.Wager < ps.CurrentWager || (ps.CurrentWager != 0 && pp.InitialStackSize >= ps.MiniBet)) {
+				m.V("C12", "raise_exact", fmt.Sprintf("%s was refused (%v): wager to match %d, previous bet or raise %d, the player's wager %d, stack at round start %d, minimum bet %d",
+					opLine, err, ps.CurrentWager, m.lastRaise, pp.Wager, pp.InitialStackSize, ps.MiniBet))
+			}
+			o.Count("engine.c12.refused_raise_checked")
+		}
+	}
 
 	// ---------- C13 forced bets ----------
 	if !m.forcedOK && st.Round == "preflop" && (st.CurrentEvent == "ReadyRequested" || st.CurrentEvent == "RoundStarted" || st.CurrentEvent == "RoundClosed") {
